@@ -497,7 +497,7 @@ VMC_SEQ_HARNESS(expr_d1, "C01,C02,C04,C05,C12") {
 // full alphabet, leaves below
 VMC_SEQ_HARNESS(expr_d2, "C01,C02,C04,C05,C12") {
   int root = vmcrt::arg(0, THEN);
-  Options o; o.faults = vmcrt::arg(1, 0) != 0; o.reactive = vmcrt::arg(2, 1) != 0;
+  Options o; o.faults = vmcrt::arg(1, 0) != 0; o.reactive = vmcrt::arg(2, 1) != 0; o.stop_events = vmcrt::arg(3, 1) != 0;
   std::vector<int> inner = all_kinds(); inner.insert(inner.begin(), LEAF);
   run_tree(choose_tree({root}, inner, 2), o);
 }
